@@ -3,6 +3,6 @@
 set -e
 cd "$(dirname "$0")"
 export CARGO_NET_OFFLINE=true
-(cd sim && cargo build --release --offline)
+(cd sim && cargo build --release --offline && cargo build --profile shipping --offline)
 if [ -x memsim/setup.sh ]; then memsim/setup.sh; fi
 echo "setup done"
